@@ -799,8 +799,13 @@ fn rec_models(ctx: &Ctx) -> Vec<RecModel> {
 fn prov_models(ctx: &Ctx) -> Vec<ProvModel> {
     let mut v = Vec::new();
     for max_keys in [0usize, 1, 2] {
-        for max_per_key in [1usize, 2] {
+        for max_per_key in [1usize, 2, 3, 4] {
             for max_addrs in [0usize, 1, 2] {
+                // per-key bounds 3 and 4 (removal from the middle of a list, eviction with several candidates) only
+                // with the address dimension fixed: it is independent of the list order
+                if max_per_key > 2 && (max_addrs != 1 || max_keys == 0) {
+                    continue;
+                }
                 for ttl_zero in [false, true] {
                     v.push(ProvModel {
                         max_keys,
